@@ -182,13 +182,26 @@ func runGramCase(r *ev.Run, c gramCase, st *gramStats) {
 		// exactly one odd token: attribute the behaviour to it (recorded once per token class)
 		back, berr := didweb.URLToDID(*u)
 		if berr != nil || back.String() != id.String() {
-			r.Observation("round trip does not hold outside the stated domain: "+odd[0], map[string]any{"did": id.String(), "url": u.String(), "back": fmt.Sprint(back), "err": fmt.Sprint(berr)})
+			r.Observation("round trip does not hold outside the stated domain: "+odd[0]+" ("+tokenText(odd[0])+")", nil)
 		}
 	}
 	// accepted hosts / ports that look odd but that the statement does not forbid (inet_aton forms, empty port, dot labels, …)
 	if derr == nil && len(odd) == 1 && !strings.HasPrefix(odd[0], "seg=") {
-		r.Observation("accepted by DIDToURL: "+odd[0], map[string]any{"did": id.String(), "url": u.String()})
+		r.Observation("accepted by DIDToURL: "+odd[0]+" ("+tokenText(odd[0])+")", nil)
 	}
+}
+
+// tokenText returns the text of a token named "host=<class>" / "port=<class>" / "seg=<class>" (for observation texts that are
+// identical on every worker).
+func tokenText(name string) string {
+	kind, class, _ := strings.Cut(name, "=")
+	list := map[string][]token{"host": hostTokens, "port": portTokens, "seg": segTokens, "literal": literalSuffixes}[kind]
+	for _, t := range list {
+		if t.Class == class {
+			return t.Text
+		}
+	}
+	return "?"
 }
 
 // oddities lists the token classes of a case that are not plain.
